@@ -445,14 +445,18 @@ end Method
 /-! ## trailingslash -/
 namespace Slash
 
+/-- ASCII letter or digit (`'a' <= c && c <= 'z' || 'A' <= c && c <= 'Z' || '0' <= c && c <= '9'`),
+    on the byte value -/
 def isAlnum (c : Char) : Bool :=
-  ('a' ≤ c && c ≤ 'z') || ('A' ≤ c && c ≤ 'Z') || ('0' ≤ c && c ≤ '9')
+  (97 ≤ c.toNat && c.toNat ≤ 122) || (65 ≤ c.toNat && c.toNat ≤ 90) || (48 ≤ c.toNat && c.toNat ≤ 57)
 
-/-- `net/url.shouldEscape(c, encodePath)` -/
+/-- `net/url.shouldEscape(c, encodePath)`: alphanumerics, `-_.~` and `$&+,/:;=@` stay, everything
+    else (`?` included) is escaped. Stated on the byte value. -/
 def shouldEscapePath (c : Char) : Bool :=
   if isAlnum c then false
-  else if c = '-' ∨ c = '_' ∨ c = '.' ∨ c = '~' then false
-  else if c = '$' ∨ c = '&' ∨ c = '+' ∨ c = ',' ∨ c = '/' ∨ c = ':' ∨ c = ';' ∨ c = '=' ∨ c = '@' then false
+  else if c.toNat = 45 ∨ c.toNat = 95 ∨ c.toNat = 46 ∨ c.toNat = 126 then false          -- - _ . ~
+  else if c.toNat = 36 ∨ c.toNat = 38 ∨ c.toNat = 43 ∨ c.toNat = 44 ∨ c.toNat = 47 ∨     -- $ & + , /
+          c.toNat = 58 ∨ c.toNat = 59 ∨ c.toNat = 61 ∨ c.toNat = 64 then false            -- : ; = @
   else true
 
 /-- `"0123456789ABCDEF"[n]` -/
@@ -474,16 +478,26 @@ def firstSegHasColon : Bytes → Bool
   | [] => false
   | c :: r => if c = '/' then false else if c = ':' then true else firstSegHasColon r
 
+/-- `if path != "" && path[0] != '/' && u.Host != "" { buf.WriteByte('/') }` -/
+def slashFor (hostSet : Bool) (ep : Bytes) : Bytes :=
+  match ep with
+  | c :: _ => if c ≠ '/' ∧ hostSet = true then ['/'] else []
+  | [] => []
+
+/-- `if buf.Len() == 0 { if segment, _, _ := strings.Cut(path, "/"); strings.Contains(segment, ":") { "./" } }` -/
+def dotFor (pre sl ep : Bytes) : Bytes :=
+  if pre = [] ∧ sl = [] ∧ firstSegHasColon ep = true then ['.', '/'] else []
+
+/-- `if u.ForceQuery || u.RawQuery != "" { '?' + RawQuery }` -/
+def queryFor (rawQuery : Bytes) (forceQuery : Bool) : Bytes :=
+  if forceQuery = true ∨ rawQuery ≠ [] then '?' :: rawQuery else []
+
 /-- `(*URL).String()` for a URL without Opaque, User and Fragment. `pre` is what is printed before
     the path (`scheme://host`, empty for an origin-form request target); `hostSet` is `u.Host != ""`. -/
 def urlString (pre : Bytes) (hostSet : Bool) (path rawQuery : Bytes) (forceQuery : Bool) : Bytes :=
-  let ep := escapedPath path
-  let sl : Bytes := match ep with
-    | c :: _ => if c ≠ '/' ∧ hostSet then ['/'] else []
-    | [] => []
-  let dot : Bytes := if pre = [] ∧ sl = [] ∧ firstSegHasColon ep then "./".toList else []
-  let q : Bytes := if forceQuery ∨ rawQuery ≠ [] then '?' :: rawQuery else []
-  pre ++ sl ++ dot ++ ep ++ q
+  pre ++ slashFor hostSet (escapedPath path)
+      ++ dotFor pre (slashFor hostSet (escapedPath path)) (escapedPath path)
+      ++ escapedPath path ++ queryFor rawQuery forceQuery
 
 structure Req where
   /-- `cfg.policy` as an integer: 0 remove, 1 add, 2 strict (anything else: no case matches) -/
@@ -502,15 +516,13 @@ structure Obs where
   loc : Option Bytes
   deriving DecidableEq, Repr
 
-/-- `strings.TrimSuffix(p, "/")` for a `p` that ends in "/" -/
-def dropLast (p : Bytes) : Bytes := p.take (p.length - 1)
-
 def hasSlash (p : Bytes) : Bool := p.getLast? == some '/'
 
-/-- the path the middleware redirects to, if it redirects -/
+/-- the path the middleware redirects to, if it redirects
+    (`strings.TrimSuffix(p, "/")` of a `p` that ends in "/" is `p.dropLast`) -/
 def target (policy : Nat) (path : Bytes) : Option Bytes :=
   if path = ['/'] then none
-  else if policy = 0 then (if hasSlash path then some (dropLast path) else none)
+  else if policy = 0 then (if hasSlash path then some path.dropLast else none)
   else if policy = 1 then (if hasSlash path then none else some (path ++ ['/']))
   else none
 
@@ -518,13 +530,14 @@ def target (policy : Nat) (path : Bytes) : Option Bytes :=
 def locationAsIs (r : Req) (newPath : Bytes) : Bytes :=
   urlString r.pre r.hostSet newPath r.rawQuery r.forceQuery
 
-/-- the `Location` value after the `fix:` commit for K17: a reference that would start with `//`
-    (a path beginning with two slashes printed without scheme and host — a network-path reference
-    for every client) gets its second slash percent-encoded -/
+/-- the `Location` value after the `fix:` commit for K17 (`redirectLocation`): a URL without scheme
+    and host whose string form starts with `//` (a path beginning with two slashes — a network-path
+    reference for every client) gets its second slash percent-encoded:
+    `if u.Scheme == "" && u.Host == "" && u.User == nil && strings.HasPrefix(loc, "//") { loc = "/%2F" + loc[2:] }` -/
 def location (r : Req) (newPath : Bytes) : Bytes :=
-  match locationAsIs r newPath with
-  | '/' :: '/' :: rest => if r.pre = [] ∧ r.hostSet = false then "/%2F".toList ++ rest else '/' :: '/' :: rest
-  | l => l
+  if r.pre = [] ∧ r.hostSet = false ∧ ['/', '/'].isPrefixOf (locationAsIs r newPath) = true
+  then ['/', '%', '2', 'F'] ++ (locationAsIs r newPath).drop 2
+  else locationAsIs r newPath
 
 def serveWith (loc : Req → Bytes → Bytes) (r : Req) : Obs :=
   match target r.policy r.path with
